@@ -61,6 +61,8 @@ def one(ctx: Ctx, cs, pname, over, core=True, derive=None):
         return
     ctx_of_line = {ln: c for ln, c in full_ctx}   # 1-based line number of the full export -> contexts
     nonkern_sig = 'nonkern_signature' in doc.tags
+    from ..model import context as CXm
+    cx_all = CXm.contexts(doc)
     import random
     prng = random.Random(cs ^ 0xC07)
     if M > 14:
@@ -73,6 +75,13 @@ def one(ctx: Ctx, cs, pname, over, core=True, derive=None):
             c2 = dict(case, from_measure=a, to_measure=b)
             inside_split = split_open_at(doc, sc.starts[a - 1])
             midsig = midscore_change_before(doc, sc, b)
+            # the mechanism of the 'nonuniform' findings is a different NUMBER of signature kinds in force in the exported spines at
+            # the start of the range (their rows cannot be paired up); spines that carry the same number of kinds - whichever kinds -
+            # are exported correctly by the unchanged tree, so a failure there is not that finding
+            li_ = sc.starts[a - 1]
+            counts_ = {sum(1 for v_ in cx_all[(li_, col_)].values() if v_ is not None)
+                       for col_, c_ in enumerate(doc.lines[li_].cells) if (li_, col_) in cx_all and doc.headers[c_.spine] == '**kern'}
+            unequal_counts = len(counts_) > 1
 
             def key(generic):
                 if inside_split:
@@ -81,7 +90,7 @@ def one(ctx: Ctx, cs, pname, over, core=True, derive=None):
                     return 'nonkern-signature-rows'
                 if midsig:
                     return 'midscore-signature-change'
-                if 'nonuniform_signatures' in doc.tags:
+                if 'nonuniform_signatures' in doc.tags and unequal_counts:
                     return 'nonuniform-signature-rows'
                 return generic
             if err is not None:
@@ -161,6 +170,11 @@ def run(ctx: Ctx):
         one(ctx, cs, pname, over, core=False)
         i += 1
     # excerpts of derived documents (clone / to_transposed / concat result) of core scores
+    # spines that carry the same NUMBER of signature kinds but not the same kinds (a staff with clef and meter beside one with clef and
+    # key signature): the unchanged tree pairs their rows up and every note keeps its signatures - outside the 'nonuniform' findings
+    for cs in cases(ctx, 'c08-kinds', 14 if ctx.tier == 'quick' else 60):
+        one(ctx, cs, 'kern_only', {'uniform_signatures': False, 'min_spines': 2, 'max_spines': 3, 'p_sig': 1.0, 'p_split': 0.0,
+                                   'p_midsig': 0.0, 'measures': (2, 4), 'p_metersym': 0.0}, core=False)
     for k_, cs in enumerate(cases(ctx, 'c08-derived', n_core // 4)):
         pname, over = MC.profiles(ctx.tier)[k_ % 8]
         one(ctx, cs, pname, over, core=True, derive=['transposed', 'concat', 'clone'][k_ % 3])
